@@ -5,7 +5,8 @@
    so every theorem holds for all of Unicode. *)
 From Coq Require Import NArith List Bool.
 From GV Require Import Base.Result Gen.TokenTypes Gen.Tokens Model.Lexer Spec.LexSpec
-  Proofs.C13.LexRun Proofs.C13.LexPosRun Proofs.C13.LexOp Proofs.C13.LexBlankSpec Proofs.C13.LexFull.
+  Proofs.C13.LexRun Proofs.C13.LexPosRun Proofs.C13.LexOp Proofs.C13.LexBlankSpec Proofs.C13.LexFull
+  Proofs.C13.LexMaximal.
 Import ListNotations.
 Local Open Scope N_scope.
 
@@ -160,3 +161,108 @@ Proof. intros. vm_compute. reflexivity. Qed.
 (* a character that cannot start a token makes lex fail (`\ 5`), it is not skipped *)
 Example C13_ex_backslash_fails : forall un ua, lex un ua [92; 32; 53] = Err E_InvalidStart.
 Proof. intros. vm_compute. reflexivity. Qed.
+
+(* ---------------------------------------------------------------------------------------
+   (d), second half: identifier, whitespace, annotation and line-annotation tokens are
+   maximal runs of the character class the lexer uses for them.  [t] is any token of a
+   successful lex, [post] the tokens after it, so the head of [concat (map tok_text post)]
+   is (by C13_lossless) the input character that follows the token. *)
+
+(* An Identifier token consists of identifier characters (alphanumeric, '_' or ':' --
+   Lexer::is_identifier_char) only, does not start with a numeric character, and cannot be
+   extended: the next input character, if any, is neither an identifier character nor a
+   backtick (a backtick would have been absorbed, making it a Prefix/InfixIdentifier). *)
+Theorem C13_identifier_maximal : forall un ua s ts,
+  lex un ua s = Ok ts ->
+  forall pre t post, ts = pre ++ t :: post -> tok_type t = TT_Identifier ->
+    forallb (is_identifier_char ua) (tok_text t) = true /\
+    match tok_text t with c :: _ => is_numeric un c = false | [] => True end /\
+    match concat (map tok_text post) with
+    | c :: _ => is_identifier_char ua c = false /\ c <> 96
+    | [] => True
+    end.
+Proof. exact lex_identifier_maximal. Qed.
+Print Assumptions C13_identifier_maximal.
+
+(* the same in the vocabulary of Spec.LexSpec *)
+Theorem C13_identifier_right_maximal : forall un ua s ts,
+  lex un ua s = Ok ts -> right_maximal (is_identifier_char ua) TT_Identifier ts.
+Proof. exact lex_identifier_right_maximal. Qed.
+Print Assumptions C13_identifier_right_maximal.
+
+(* `a_1:b+` : the identifier stops exactly at the '+' *)
+Example C13_ex_identifier_maximal : forall un ua,
+  lex un ua [97; 95; 49; 58; 98; 43] =
+  Ok [mkTok [97; 95; 49; 58; 98] TT_Identifier 0 0; mkTok [43] TT_PlusSign 0 5].
+Proof. intros. vm_compute. reflexivity. Qed.
+
+(* A Whitespace token starts with an ASCII whitespace character and continues with spaces,
+   tabs and line feeds only; the next input character, if any, is not a space, a tab or a
+   line feed.  There is no exception before a blank line: the lexer never cuts a whitespace
+   run in front of a line feed -- a run that reaches a second line feed becomes, as a whole,
+   the Subexpression token of clause (e).  (The class is {space, tab, LF}, not all ASCII
+   whitespace: a carriage return or form feed after a run starts a new Whitespace token, see
+   C13_ex_whitespace_cr_ff.  Both characters are outside the property: CR is excluded by its
+   text, FF is C13-K1.) *)
+Theorem C13_whitespace_maximal : forall un ua s ts,
+  lex un ua s = Ok ts ->
+  forall pre t post, ts = pre ++ t :: post -> tok_type t = TT_Whitespace ->
+    (exists h r, tok_text t = h :: r /\ is_ascii_whitespace h = true /\
+                 forallb (fun c => (c =? 32) || (c =? 9) || (c =? 10)) r = true) /\
+    match concat (map tok_text post) with
+    | c :: _ => (c =? 32) || (c =? 9) || (c =? 10) = false
+    | [] => True
+    end.
+Proof. exact lex_whitespace_maximal. Qed.
+Print Assumptions C13_whitespace_maximal.
+
+(* `5 \t\n 6` : one Whitespace token holds the whole run, including the single line feed *)
+Example C13_ex_whitespace_maximal : forall un ua,
+  lex un ua [53; 32; 9; 10; 32; 54] =
+  Ok [mkTok [53] TT_Number 0 0; mkTok [32; 9; 10; 32] TT_Whitespace 0 1; mkTok [54] TT_Number 1 1].
+Proof. intros. vm_compute. reflexivity. Qed.
+
+(* ` \r` and `5 \f` : CR and FF do not continue a run of spaces *)
+Example C13_ex_whitespace_cr_ff : forall un ua,
+  lex un ua [32; 13] = Ok [mkTok [32] TT_Whitespace 0 0; mkTok [13] TT_Whitespace 0 1] /\
+  lex un ua [53; 32; 12] =
+  Ok [mkTok [53] TT_Number 0 0; mkTok [32] TT_Whitespace 0 1; mkTok [12] TT_Whitespace 0 2].
+Proof. intros. split; vm_compute; reflexivity. Qed.
+
+(* An Annotation token is '@' followed by alphanumeric characters and '_' only (this, not
+   "up to the next whitespace", is the rule of LexingState::Annotation); the next input
+   character, if any, is not alphanumeric or '_', and it is not '@' when the token is the
+   bare "@" (a second '@' there makes it a LineAnnotation). *)
+Theorem C13_annotation_maximal : forall un ua s ts,
+  lex un ua s = Ok ts ->
+  forall pre t post, ts = pre ++ t :: post -> tok_type t = TT_Annotation ->
+    (exists r, tok_text t = 64 :: r /\
+               forallb (fun c => is_alphanumeric ua c || (c =? 95)) r = true) /\
+    match concat (map tok_text post) with
+    | c :: _ => is_alphanumeric ua c || (c =? 95) = false /\ (tok_text t = [64] -> c <> 64)
+    | [] => True
+    end.
+Proof. exact lex_annotation_maximal. Qed.
+Print Assumptions C13_annotation_maximal.
+
+(* A LineAnnotation token is "@@" followed by the rest of the line: either it ends with the
+   first line feed after "@@" (which belongs to the token), or it contains no line feed and
+   is the last token of the input. *)
+Theorem C13_line_annotation_maximal : forall un ua s ts,
+  lex un ua s = Ok ts ->
+  forall pre t post, ts = pre ++ t :: post -> tok_type t = TT_LineAnnotation ->
+    exists b, ~ In 10 b /\
+      ((tok_text t = 64 :: 64 :: b /\ concat (map tok_text post) = []) \/
+       tok_text t = 64 :: 64 :: b ++ [10]).
+Proof. exact lex_line_annotation_maximal. Qed.
+Print Assumptions C13_line_annotation_maximal.
+
+(* `@ab_1+@@x y\n5` : the annotation stops at '+', the line annotation takes the line feed;
+   `@a@b` : two annotations; `@@x` : a line annotation that ends with the input *)
+Example C13_ex_annotation_maximal : forall un ua,
+  lex un ua [64; 97; 98; 95; 49; 43; 64; 64; 120; 32; 121; 10; 53] =
+  Ok [mkTok [64; 97; 98; 95; 49] TT_Annotation 0 0; mkTok [43] TT_PlusSign 0 5;
+      mkTok [64; 64; 120; 32; 121; 10] TT_LineAnnotation 0 6; mkTok [53] TT_Number 1 0] /\
+  lex un ua [64; 97; 64; 98] = Ok [mkTok [64; 97] TT_Annotation 0 0; mkTok [64; 98] TT_Annotation 0 2] /\
+  lex un ua [64; 64; 120] = Ok [mkTok [64; 64; 120] TT_LineAnnotation 0 0].
+Proof. intros. repeat split; vm_compute; reflexivity. Qed.
